@@ -176,7 +176,51 @@ func lastLines(s string, n int) string {
 	return strings.Join(l, "\n")
 }
 
-func c11Judge(c *Ctx, cs *Case) { histJudge(c, cs, 1) }
+func c11Judge(c *Ctx, cs *Case) {
+	if cs.Gen == "string-index-consistency" {
+		c11StringIndex(c, cs)
+		return
+	}
+	histJudge(c, cs, 1)
+}
+
+// c11StringIndex: the absolute meaning of a numeric-looking *string* used as an
+// index is not pinned, but it must be one number: if a[s] succeeds, then s
+// coerced by arithmetic (s * 1) must index the same element, on read, write
+// and রিমুভ alike.
+func c11StringIndex(c *Ctx, cs *Case) {
+	c.Begin(cs)
+	s := cs.X["s"]
+	pre := Var("a", "[100, 101, 102, 103, 104, 105, 106, 107, 108, 109, 110, 111, 112, 113, 114, 115, 116, 117]") + "\n" + Var("s", s) + "\n"
+	run := func(body string) *Obs { return RunLib(pre+body, RunOpts{MaxSteps: 100000}) }
+	direct := run(Print("a[s]") + "\n")
+	if CheckAbnormal(c, direct) {
+		return
+	}
+	if direct.Exit != 0 {
+		c.Count("string_index_rejected", 1)
+		c.Nontrivial(cs.Src)
+		return
+	}
+	for name, pair := range map[string][2]string{
+		"read":   {Print("a[s]"), Print("a[s * 1]")},
+		"write":  {"a[s] = 7; " + Print("a"), "a[s * 1] = 7; " + Print("a")},
+		"remove": {Print(BI("remove", "a", "s")), Print(BI("remove", "a", "s * 1"))},
+		"shift":  {Print("1 << s"), Print("1 << (s * 1)")},
+	} {
+		x, y := run(pair[0]+"\n"), run(pair[1]+"\n")
+		if CheckAbnormal(c, x) || CheckAbnormal(c, y) {
+			return
+		}
+		if x.Stdout != y.Stdout || x.Exit != y.Exit {
+			c.Violate(Violation{Why: fmt.Sprintf("the string %s denotes one number when used as an index (%s) and another when coerced by arithmetic", s, name), Expected: describeObs(y), Observed: describeObs(x), Signature: "string-index-inconsistent:" + name})
+			return
+		}
+	}
+	c.Count("string_index_consistent", 1)
+	c.Nontrivial(cs.Src)
+	c.Sample(cs.Gen, s)
+}
 
 func c11Run(c *Ctx) {
 	ops := c11Ops()
@@ -221,6 +265,11 @@ func c11Run(c *Ctx) {
 		}
 		c11Judge(c, cs)
 	}
+	for _, sv := range []string{`"0"`, `"1"`, `"2"`, `"07"`, `"08"`, `"010"`, `"0010"`, `"017"`, `"0x1"`, `"0X10"`, `"0b1"`, `"0o7"`, `"1.0"`, `"2.00"`, `"1e0"`, `"1e1"`, `"\u09e7\u09e6"`, `"\u09e6\u09e7\u09e6"`, `" 1"`, `"1 "`, `"+1"`, `"-0"`, `"1_0"`, `"0.5"`, `"16"`, `"00"`} {
+		if c.Mine() {
+			c11Judge(c, &Case{Gen: "string-index-consistency", Src: sv, X: map[string]string{"s": sv}})
+		}
+	}
 	// hand-written: capacity-aliasing patterns and array literal freshness per evaluation
 	for _, src := range []string{
 		Lines(Var("a", "[1, 2, 3]"), Var("b", BI("append", "a", "4")), Var("cc", BI("append", "a", "5")), Print("a"), Print("b"), Print("cc"), "b[0] = 9;", Print("a"), Print("b"), Print("cc")),
@@ -247,7 +296,7 @@ func init() {
 		Run:         c11Run,
 		Judge:       c11Judge,
 		MustCount: func(c *Ctx) []string {
-			out := []string{"histories_clean", "histories_ending_in_fault", "gen:random-long-histories", "cli_runs", "fault:BadIndex", "fault:BuiltinFailure"}
+			out := []string{"histories_clean", "histories_ending_in_fault", "gen:random-long-histories", "cli_runs", "fault:BadIndex", "fault:BuiltinFailure", "string_index_consistent"}
 			for _, o := range c11Ops() {
 				out = append(out, "op:"+o.name)
 			}
